@@ -60,7 +60,7 @@ ASSUME = {
  "C11": ["parser caches (cold/warm) are outside the model; observed only"],
  "C12": ["calls on private evaluator state are atomic steps in the model; Go-memory-model races are only observed with the race detector"],
  "C13": ["model values are immutable: aliasing writes are caught only by the deep-snapshot correspondence"],
- "C15": ["character-level invariance for whole rules: C15_char_level_tokens is proved from per-token conditions only (every token canonical for the table, string literals closed - both decidable, instances checked by the kernel) for rules without `-` before an integer and without integer exponents; C15_char_level3 covers every token kind under decidable conditions on adjacent tokens (look-ahead over whole tokens); that every rendering of every rule meets those conditions is backed by the metamorphic correspondence, not proved"],
+ "C15": ["character-level invariance for whole rules is a theorem (C15_render: every rendering, under every choice of the free spellings, of a well-formed tree is read back as that tree) for trees that are well-formed in the decidable sense `wf`: every name / literal text / connective in the tree is a canonical token of its kind for the regenerated table, string literals are closed, right operands are primaries, integer literals carry no sign and no exponent; for signed / exponent integers C15_char_level3 gives the same under decidable conditions on neighbouring tokens; `wf` itself is checked per tree (kernel-evaluated instances), and the engine's agreement with it is the metamorphic correspondence"],
  "C16": ["calls not ended by a recovered panic; convertible literals; object-shaped paths"],
  "C19": ["values attached with Set are abstracted to their JSON rendering by encoding/json (or 'not encodable')"],
  "C20": ["conformance of the generated Go lexer/parser is differential (tokens, accept/reject, tree shape), not a theorem"],
